@@ -61,7 +61,7 @@ IsGitDir(fs, d) ==
 \* ---- GIT_CEILING_DIRECTORIES -------------------------------------------------------------
 \* Entries are made canonical with realpath until an empty entry is met; later ones are compared
 \* as written (so they only ever match when they spell a real path).  Relative entries are dropped.
-\* One trailing slash is ignored.  [Bug_CeilNoRealpath: entries are never resolved]
+\* One trailing slash is ignored.
 RECURSIVE Ceilings(_, _, _, _)
 Ceilings(fs, items, i, emptySeen) ==
   IF i > Len(items) THEN {}
@@ -83,29 +83,39 @@ Res(found, fatal, how, gitdir, at) == [found |-> found, fatal |-> fatal, how |->
 NotFound == Res(FALSE, "", "", NoPath, NoPath)
 Fatal(why, at) == Res(FALSE, why, "", NoPath, at)
 
-\* Bug_CeilInclusive: the ceiling directory itself is still examined (off by one)
-\* Bug_SkipBadGitfile: an unusable .git file is stepped over instead of ending the search
-RECURSIVE Search(_, _, _, _, _)
-Search(fs, dir, cl, bugIncl, bugSkip) ==
+\* Named defective designs (self-tests and classification of disagreements only; NoBugs is the rule):
+\*   incl    the ceiling directory itself is still examined (off by one)
+\*   skip    an unusable .git file is stepped over instead of ending the search
+\*   dotgit  a start directory NAMED .git that is no git dir makes the search examine its parent only
+\*           as a bare candidate and then continue two levels further up
+NoBugs == [incl |-> FALSE, skip |-> FALSE, dotgit |-> FALSE]
+RECURSIVE Search(_, _, _, _)
+Search(fs, dir, cl, b) ==
   LET dg == Append(dir, ".git")
       up == IF dir = <<>> THEN NotFound
-            ELSE IF (IF bugIncl THEN Len(dir) - 1 < cl ELSE Len(dir) - 1 <= cl) THEN NotFound
-            ELSE Search(fs, Parent(dir), cl, bugIncl, bugSkip)
+            ELSE IF (IF b.incl THEN Len(dir) - 1 < cl ELSE Len(dir) - 1 <= cl) THEN NotFound
+            ELSE Search(fs, Parent(dir), cl, b)
       self == IF IsGitDir(fs, dir) THEN Res(TRUE, "", "self", dir, dir) ELSE up
   IN IF IsFile(fs, dg)
      THEN LET e == At(fs, dg) IN
           IF e.k = "gitdir" /\ IsGitDir(fs, Target(fs, dg)) THEN Res(TRUE, "", "gitfile", Target(fs, dg), dir)
-          ELSE IF bugSkip THEN self
+          ELSE IF b.skip THEN self
           ELSE Fatal(IF e.k = "junk" THEN "invalid gitfile format" ELSE IF e.k = "nopath" THEN "no path in gitfile" ELSE "not a git repository", dir)
      ELSE IF IsGitDir(fs, dg) THEN Res(TRUE, "", "dotgit", dg, dir)
      ELSE self
 
-\* what `git -C <start> rev-parse` works with: cwd = physical start directory
-Discover(fs, cwd, start, ceil, bugIncl, bugSkip) ==
-  LET s == Walk(fs, IF start.abs THEN <<>> ELSE cwd, start.comps)
-  IN Search(fs, s, CeilLen(s, Ceilings(fs, ceil, 1, FALSE)), bugIncl, bugSkip)
+SearchFrom(fs, s, cl, b) ==
+  IF b.dotgit /\ Len(s) >= 3 /\ LastOf(s) = ".git" /\ ~IsGitDir(fs, s)
+  THEN IF IsGitDir(fs, Parent(s)) THEN Res(TRUE, "", "self", Parent(s), Parent(s))
+       ELSE Search(fs, Parent(Parent(Parent(s))), cl, b)
+  ELSE Search(fs, s, cl, b)
 
-\* Bug_LexicalStart: the start directory and its parents are taken from the path text
+\* what `git -C <start> rev-parse` works with: cwd = physical start directory
+Discover(fs, cwd, start, ceil, b) ==
+  LET s == Walk(fs, IF start.abs THEN <<>> ELSE cwd, start.comps)
+  IN SearchFrom(fs, s, CeilLen(s, Ceilings(fs, ceil, 1, FALSE)), b)
+
+\* lexical: the start directory and its parents are taken from the path text
 \* (".." cancels the preceding name, links are not followed)
 RECURSIVE Lexical(_, _)
 Lexical(acc, comps) ==
@@ -113,9 +123,9 @@ Lexical(acc, comps) ==
   ELSE IF Head(comps) = "." THEN Lexical(acc, Tail(comps))
   ELSE IF Head(comps) = ".." THEN Lexical(Parent(acc), Tail(comps))
   ELSE Lexical(Append(acc, Head(comps)), Tail(comps))
-DiscoverLexical(fs, cwd, start, ceil) ==
+DiscoverLexical(fs, cwd, start, ceil, b) ==
   LET s == Lexical(IF start.abs THEN <<>> ELSE cwd, start.comps)
-  IN Search(fs, s, CeilLen(s, Ceilings(fs, ceil, 1, FALSE)), FALSE, FALSE)
+  IN SearchFrom(fs, s, CeilLen(s, Ceilings(fs, ceil, 1, FALSE)), b)
 
 \* `git rev-parse --show-toplevel`: the directory holding the .git entry; a git directory entered
 \* directly (bare, or the cwd is inside .git) has no work tree for git
